@@ -1,6 +1,7 @@
 import CfbVerif.Phys.Api
 import CfbVerif.Drv.Api
 import CfbVerif.Spec.Check
+import CfbVerif.Phys.Load
 /-! `driver phys`: API histories on the two-level model; prints result, image hash and caches. -/
 namespace CfbVerif.Drv.Phys
 open CfbVerif.Phys CfbVerif.Dir CfbVerif.Drv CfbVerif.Drv.Api
@@ -24,6 +25,12 @@ def stepLine (st : St) (line : String) : IO (St × String) := do
   | ["create", v] =>
     let ps := PState.create (v == "4") CfbVerif.Gen.DEFAULT_STREAM_MAX_BUFFER_SIZE
     pure ({ ps := ps, live := true }, "ok | " ++ tail ps .fine)
+  | ["load", path] =>
+    -- start from a file somebody else wrote (C04)
+    let img ← IO.FS.readBinFile path
+    match ofImage img CfbVerif.Gen.DEFAULT_STREAM_MAX_BUFFER_SIZE with
+    | some ps => pure ({ ps := ps, live := true }, "ok | " ++ tail ps .fine)
+    | none => pure ({ st with live := false }, "unloadable | -")
   | ["image", path] =>
     IO.FS.writeBinFile path st.ps.image
     pure (st, "ok | " ++ tail st.ps .fine)
